@@ -1,0 +1,52 @@
+//go:build verif
+
+package vgirpc
+
+import (
+	"context"
+	"fmt"
+	"reflect"
+)
+
+// Verification hooks for C07 (build tag "verif"). The generic registration
+// functions need the parameter type at compile time; the check generates
+// parameter struct types at run time (reflect.StructOf), so this registers a
+// unary method for a reflect.Type exactly the way Unary[P, int64] does and lets
+// the real dispatch path (Serve -> serveUnary -> deserializeParams -> handler)
+// run on it. Add-only; nothing here is compiled into normal builds.
+
+// VerifC07RegisterUnary registers method name with parameter struct type
+// paramsType and an int64 result. onCall receives the bound parameter struct
+// every time the handler is invoked. The error is the one Unary would panic
+// with (the parameter type cannot be described).
+func VerifC07RegisterUnary(s *Server, name string, paramsType reflect.Type, onCall func(params reflect.Value)) error {
+	zero := reflect.New(paramsType).Elem().Interface()
+	paramsSchema, err := paramsSchemaFor(zero, paramsType)
+	if err != nil {
+		return fmt.Errorf("vgirpc: registering %q: invalid params type %v: %w", name, paramsType, err)
+	}
+	resultType := reflect.TypeOf(int64(0))
+	resSchema, err := resultSchema(resultType)
+	if err != nil {
+		return err
+	}
+	errType := reflect.TypeOf((*error)(nil)).Elem()
+	fnType := reflect.FuncOf(
+		[]reflect.Type{reflect.TypeOf((*context.Context)(nil)).Elem(), reflect.TypeOf((*CallContext)(nil)), paramsType},
+		[]reflect.Type{resultType, errType}, false)
+	handler := reflect.MakeFunc(fnType, func(args []reflect.Value) []reflect.Value {
+		onCall(args[2])
+		return []reflect.Value{reflect.ValueOf(int64(1)), reflect.Zero(errType)}
+	})
+	s.methods[name] = &methodInfo{
+		Name:          name,
+		Type:          MethodUnary,
+		ParamsType:    paramsType,
+		ResultType:    resultType,
+		ParamsSchema:  paramsSchema,
+		ResultSchema:  resSchema,
+		Handler:       handler,
+		ParamDefaults: extractDefaults(paramsType),
+	}
+	return nil
+}
